@@ -337,7 +337,7 @@ def run(ctx):
             if not null_doc:
                 doc = [None]
         ctype = ch.choice(['application/json', 'application/json; charset=utf-8', 'application/vnd.api+json',
-                           'application/json; foo=bar'], 'ctype')
+                           'application/json; foo=bar', 'application/json; charset=ISO-8859-1'], 'ctype')
         ctx.probe('json_doc')
         if '+json' in ctype:
             ctx.probe('plus_json')
